@@ -1,0 +1,5 @@
+//go:build !verif
+
+package storage
+
+func verifPoint(ev string, off uint64) {}
